@@ -56,8 +56,13 @@ func cx(b []byte) string {
 	}
 	return "(" + strings.Join(parts, " ++ ") + ")%list"
 }
-func cxs(s string) string  { return cx([]byte(s)) }
-func cbool(b bool) string  { if b { return "true" }; return "false" }
+func cxs(s string) string { return cx([]byte(s)) }
+func cbool(b bool) string {
+	if b {
+		return "true"
+	}
+	return "false"
+}
 func clist(items []string) string {
 	return "[" + strings.Join(items, "; ") + "]"
 }
